@@ -173,6 +173,24 @@ def handle (j : Json) : Except String Json := do
     pure <| Json.mkObj [("delta", ratToJson (deltaF ref trial dp dn a b)),
                         ("log_arg", ratToJson (logArg ref trial)),
                         ("lt", Json.bool (decide (trial < ref)))]
+  | "ffapi" =>
+    -- a history of public calls on ONE ForgivingFactorBits object (same `getReference` / `getTrial` /
+    -- `deltaObj` the theorems are about, float64 instance)
+    let dp ← getRat j "dp"
+    let dn ← getRat j "dn"
+    let stress ← getRat j "stress"
+    let evs ← (← j.getObjVal? "events").getArr?
+    let events ← evs.toList.mapM fun e => do
+      match e with
+      | .arr #[.str "ref", x] => pure (FEv.ref (← ratOfJson x))
+      | .arr #[.str "trial", x] => pure (FEv.trial (← ratOfJson x))
+      | .arr #[.str "stress", x] => pure (FEv.setStress (← ratOfJson x))
+      | .arr #[.str "delta", a, b] => pure (FEv.delta (← ratOfJson a) (← ratOfJson b))
+      | _ => throw "bad event"
+    let optRat : Option Rat → Json := fun o => match o with | none => Json.null | some q => ratToJson q
+    let out := runF dp dn { stress := stress } events
+    pure <| Json.mkObj [("steps", Json.arr (out.map fun r =>
+      Json.arr #[optRat r.1, optRat r.2.1, optRat r.2.2]).toArray)]
   | "size" =>
     let c : SzCfg := { inputBits := ← getInt j "input_bits", outputBits := ← getInt j "output_bits",
                        refBits := ← getInt j "ref_bits",
